@@ -35,6 +35,7 @@ type facts struct {
 	IDEscapeFn           string            `json:"id_escape_fn"`
 	SysFlags             map[string]bool   `json:"sys_flags"`
 	CloseWalksAll        bool              `json:"close_walks_all"`
+	LastSeqAfterCommit   bool              `json:"last_seq_after_commit"`
 	CleanupUnsignedGuard bool              `json:"cleanup_unsigned_guard"`
 	LegacyFlags          map[string]bool   `json:"legacy_flags"`
 	UpdateJSONFields     []string          `json:"update_json_fields"`
@@ -652,6 +653,42 @@ func (fa *facts) sysFlags(repo string) {
 		fa.errf("bolt.go: dispatchHistory not found")
 	}
 	fa.SysFlags = fl
+	// persist: the transport's in-memory last sequence / last event id move only once the write transaction has
+	// committed — no assignment to them inside the closure handed to db.Update (a failed transaction is rolled back
+	// by bbolt; the model's db.Update step has no failing variant that changes the state)
+	if fd := funcDecl(bo, "BoltTransport", "persist"); fd != nil {
+		inside, outside := 0, 0
+		var walk func(n ast.Node, inLit bool)
+		walk = func(n ast.Node, inLit bool) {
+			ast.Inspect(n, func(m ast.Node) bool {
+				if m == n {
+					return true
+				}
+				if fl, ok := m.(*ast.FuncLit); ok {
+					walk(fl.Body, true)
+
+					return false
+				}
+				if a, ok := m.(*ast.AssignStmt); ok {
+					for _, l := range a.Lhs {
+						if x := exprString(l); strings.HasSuffix(x, ".lastSeq") || strings.HasSuffix(x, ".lastEventID") {
+							if inLit {
+								inside++
+							} else {
+								outside++
+							}
+						}
+					}
+				}
+
+				return true
+			})
+		}
+		walk(fd.Body, false)
+		fa.LastSeqAfterCommit = inside == 0 && outside >= 2
+	} else {
+		fa.errf("bolt.go: persist not found")
+	}
 	// Close (both transports): the walk over the subscriber list must visit every subscriber — the callback
 	// given to Walk is a function literal whose every return is the constant true (Walk stops on false).
 	walksAll := true
@@ -930,6 +967,7 @@ func (fa *facts) lean() string {
 	fmt.Fprintf(&b, "def sysFlags : Mercure.Sys.Flags := ⟨%v, %v, %v, %v, %v, %v⟩\n", fa.SysFlags["closeOnOverflow"], fa.SysFlags["readyGuard"],
 		fa.SysFlags["disconnectRecheck"], fa.SysFlags["localMatchLocked"], fa.SysFlags["lastSeqOnOpen"], fa.SysFlags["cutBeforeDispatch"])
 	fmt.Fprintf(&b, "def closeWalksAll : Bool := %v\n", fa.CloseWalksAll)
+	fmt.Fprintf(&b, "/-- persist assigns lastSeq / lastEventID only after the write transaction has committed -/\ndef lastSeqAfterCommit : Bool := %v\n", fa.LastSeqAfterCommit)
 	fmt.Fprintf(&b, "def cleanupUnsignedGuard : Bool := %v\n", fa.CleanupUnsignedGuard)
 	fmt.Fprintf(&b, "def legacyFlags : Mercure.Config.LegacyFlags := ⟨%v, %v⟩\n", fa.LegacyFlags["requireSubscriberKey"], fa.LegacyFlags["zeroMeansDisabled"])
 	fmt.Fprintf(&b, "def updateJSONFields : List String := %s\n", goStrList(fa.UpdateJSONFields))
